@@ -2,7 +2,7 @@
    Hypotheses shared by the list theorems: the array part fits ([bounded], len(arr)+1 < mai, see
    known finding C09-2) and the table is a list of n elements ([is_list]: non-nil exactly at 1..n
    among the positive integer keys; trailing nil cells in the array part are allowed). *)
-From GL Require Import Common.Bytes Table.TImpl Table.TSpec Table.TInv Table.TLib Table.TLibFacts.
+From GL Require Import Common.Bytes Table.TImpl Table.TSpec Table.TInv Table.TLib Table.TLibFacts Table.TLibNest Table.TLibNestFacts.
 From Coq Require Import Permutation.
 
 Theorem insert_pos_refines : forall mai t n pos v,
@@ -116,6 +116,30 @@ Theorem sort_permutation : forall lt a evs a' calls raised,
   Permutation a' a /\ Forall (fun c => In (fst c) a /\ In (snd c) a) calls.
 Proof. exact sort_permutation_lemma. Qed.
 Print Assumptions sort_permutation.
+
+(* the same for a comparator with side effects: it is a state transformer over a world W of
+   anything but the array being sorted (other tables, counters, the Lua state) *)
+Theorem sort_permutation_stateful : forall (W : Type) (lt : wcmp W) w a evs w' a' calls raised,
+  forallb (ev_in_range (len a)) evs = true ->
+  sort_run_w lt w a evs [] = (w', (a', calls, raised)) ->
+  Permutation a' a /\ Forall (fun c => In (fst c) a /\ In (snd c) a) calls.
+Proof. exact (@sort_permutation_w_lemma). Qed.
+Print Assumptions sort_permutation_stateful.
+
+(* table.sort is re-entrant: when the comparator of an outer sort runs table.sort on another list
+   (w) at each of its calls (any in-range behaviour of the routine there, any inner comparator),
+   both lists end as permutations of themselves, the outer comparator saw only elements of the
+   outer list, and - unless a comparator failed - the outer run is exactly the run with the plain
+   comparator olt: the nested sorts do not disturb it *)
+Theorem sort_reentrant : forall ievs ilt olt w a evs w' a' calls raised,
+  forallb (ev_in_range (len a)) evs = true ->
+  (forall k (w0 : list value), len w0 = len w -> forallb (ev_in_range (len w0)) (ievs k) = true) ->
+  sort_run_w (nesting_cmp ievs ilt olt) w a evs [] = (w', (a', calls, raised)) ->
+  Permutation w' w /\ Permutation a' a /\
+  Forall (fun c => In (fst c) a /\ In (snd c) a) calls /\
+  (raised = false -> sort_run olt a evs [] = (a', calls, false)).
+Proof. exact sort_reentrant_lemma. Qed.
+Print Assumptions sort_reentrant.
 
 (* NOT proved (oracle, tested on every generated sort by check_spec): Go's sort.Sort, seen as a
    function from the comparator and the array to the Less/Swap calls it issues, stays in range
